@@ -129,6 +129,10 @@ Step(a, s) ==
          IF ~v.ok THEN [s EXCEPT !.err = TRUE]
          ELSE IF a.fn = "Mark" THEN [s EXCEPT !.f["F.Once"] = s.f["F.Once"] * 10 + v.v]   \* records order and number of runs
          ELSE [s EXCEPT !.f[SetterKey(a.fn)] = v.v]
+    [] a.k = "repoint" ->   \* F.P = F.Spare: the paths below F.P now denote the spare object (V = 7, S = "sp" when first reached)
+         IF s.f["F.P@"] = 1 THEN s
+         ELSE [s EXCEPT !.f = [k \in DOMAIN s.f \cup {"F.P.V", "F.P.S"} |->
+                                 IF k = "F.P.V" THEN 7 ELSE IF k = "F.P.S" THEN "sp" ELSE IF k = "F.P@" THEN 1 ELSE s.f[k]]]
     [] a.k = "retract"  -> [s EXCEPT !.ret = s.ret \cup {a.name}]
     [] a.k = "complete" -> [s EXCEPT !.comp = TRUE]
     [] a.k = "forget"   -> s          \* layer A remembers nothing, so there is nothing to forget
